@@ -12,6 +12,7 @@ A tiny identifier pool is reused across scopes, modules and kinds so that equal 
 denote different bindings; the same spellings are planted in strings, f-string literal parts,
 comments, keyword-argument positions and attributes of unrelated classes.
 """
+import keyword
 import random
 
 VNAMES = ["x", "y", "val", "item", "n", "data", "ü"]
@@ -34,6 +35,7 @@ DEFAULT_KNOBS = {
     "p_while": 0.2, "p_tuple_assign": 0.2, "p_annot": 0.15, "multi_call_sites": 0.0,
     "p_instance_global": 0.2, "p_nested_in_method": 0.3, "p_parent_relative": 0.5,
     "p_dunder_call": 0,     # callable instances; 0 = no random draw at all (opt-in per check)
+    "p_kw_like_var": 0,     # calls of **kwargs functions pass a keyword spelled like a variable
     "unique_names": 0,      # 1 = every binding gets its own spelling (no clashes anywhere in the project)
 }
 
@@ -55,6 +57,8 @@ PROFILES = {
 class Sig:
     """Callable signature.  params: list of (name, kind, default_text) with kind in
     pos | posonly | default | kwonly | kwonly_default | vararg | kwarg."""
+
+    kw_like_var = 0   # set per generated project from the knob p_kw_like_var
 
     def __init__(self, name, params, kind="func", owner=None):
         self.name, self.params, self.kind, self.owner = name, params, kind, owner
@@ -124,7 +128,18 @@ class Sig:
                     out.append(f"{n}={argf()}")
             elif k == "kwarg":
                 if rnd.random() < 0.5:
-                    out.append(f"extra_{n}={argf()}")
+                    kwname = f"extra_{n}"
+                    val = argf()
+                    if Sig.kw_like_var and rnd.random() < Sig.kw_like_var:
+                        # a keyword that only **kwargs collects, spelled like an ordinary variable:
+                        # the very variable that is passed (f(n=n)), else any name of the small pool
+                        pnames = [p[0] for p in self.params]
+                        cands = [v for v in VNAMES if v not in pnames]
+                        if val.isidentifier() and val not in pnames and not keyword.iskeyword(val):
+                            kwname = val
+                        elif cands:
+                            kwname = rnd.choice(cands)
+                    out.append(f"{kwname}={val}")
         return ", ".join(out)
 
 
@@ -925,5 +940,6 @@ def generate(seed, profile="default", **overrides):
     """files: {path: text}.  Deterministic in (seed, profile, overrides)."""
     rnd = random.Random(f"pygen/{seed}/{profile}")
     g = Gen(rnd, profile, **overrides)
+    Sig.kw_like_var = g.k["p_kw_like_var"]
     files = g.generate()
     return files, g
